@@ -27,10 +27,12 @@ type c15Plan struct {
 	ErrPages      int      `json:"err_pages"`
 	KeepAlive     bool     `json:"keep_alive"` // POST only (not replayable), target keeps connections open
 	Reqs          []c15Req `json:"reqs"`
+	Burst         int      `json:"burst"` // > 0: first this many requests at once to a target that never answers
 }
 
 var c15Faults = []string{"none", "no-listener", "accept-close", "read-close", "reset", "garbage", "partial-status", "partial-headers-close",
-	"partial-headers-stall", "partial-headers-reset", "silence", "late-head", "head-then-close-short", "head-then-reset", "chunk-partial-close", "head-only-close"}
+	"partial-headers-stall", "partial-headers-reset", "silence", "late-head", "head-then-close-short", "head-then-reset", "chunk-partial-close", "head-only-close",
+	"early-then-reset", "early-then-garbage", "early-then-silence"}
 
 func c15Gen(t *rapid.T) c15Plan {
 	p := c15Plan{}
@@ -47,9 +49,13 @@ func c15Gen(t *rapid.T) c15Plan {
 		}
 		p.Reqs = append(p.Reqs, rq)
 	}
+	if rapid.IntRange(0, 19).Draw(t, "burst") == 0 {
+		p.Burst = rapid.SampledFrom([]int{101, 140}).Draw(t, "burst-n")
+	}
 	return p
 }
 
+const c15Early = "HTTP/1.1 103 Early Hints\r\nLink: </s.css>; rel=preload\r\n\r\n"
 const c15OK = "HTTP/1.1 200 OK\r\nContent-Length: 2\r\nX-Vf-Target: raw\r\n\r\nok"
 const c15OKClose = "HTTP/1.1 200 OK\r\nContent-Length: 2\r\nConnection: close\r\nX-Vf-Target: raw\r\n\r\nok"
 
@@ -80,6 +86,12 @@ func c15Script(f c15Req, keepAlive bool) []vfRawStep {
 		return []vfRawStep{{Kind: "bytes", Data: "HTTP/1.1 200 OK\r\nX-A: b\r\n"}, {Kind: "reset"}}
 	case "silence":
 		return []vfRawStep{{Kind: "stall"}}
+	case "early-then-reset":
+		return []vfRawStep{{Kind: "bytes", Data: c15Early}, {Kind: "reset"}}
+	case "early-then-garbage":
+		return []vfRawStep{{Kind: "bytes", Data: c15Early + "garbage\r\n\r\n"}, {Kind: "close"}}
+	case "early-then-silence":
+		return []vfRawStep{{Kind: "bytes", Data: c15Early}, {Kind: "stall"}}
 	case "late-head":
 		return []vfRawStep{{Kind: "delay", DelayMs: f.DelayMs}, {Kind: "bytes", Data: c15OKClose}, {Kind: "close"}}
 	case "head-then-close-short":
@@ -110,6 +122,27 @@ func c15Run(t *testing.T, p c15Plan) (res vfResult) {
 		f := w.front(NewServer(&Config{HttpPort: 80, HttpsPort: 443}, r).buildHandler(), "front:80")
 		timeout := vfMs(p.RespTimeoutMs)
 		interesting := false
+		if p.Burst > 0 {
+			// many requests at once to a silent target: every one of them gets its 504 after one target timeout
+			rt.setScripts(nil, []vfRawStep{{Kind: "stall"}})
+			t0 := w.now()
+			outs := make(chan *vfRawResp, p.Burst)
+			for i := 0; i < p.Burst; i++ {
+				go func() {
+					outs <- f.rawExchange(c13ClientIP, [][]byte{[]byte(fmt.Sprintf("GET /burst%d HTTP/1.1\r\nHost: h.test\r\n\r\n", i))}, nil, "GET", 0)
+				}()
+			}
+			for i := 0; i < p.Burst; i++ {
+				rp := <-outs
+				if rp.Resp == nil || rp.Resp.StatusCode != 504 || rp.End != t0+timeout {
+					res.failf("burst-not-prompt", "%d requests at once to a silent target (target-timeout %v): one got %v (head err %v) at %v, want 504 at exactly %v", p.Burst, timeout, c13Status(rp), rp.HeadErr, rp.End, t0+timeout)
+					return
+				}
+			}
+			synctest.Wait()
+			res.label("burst")
+			interesting = true
+		}
 		for i, rq := range p.Reqs {
 			desc := fmt.Sprintf("request %d fault=%s delay=%dms (target-timeout=%v buf-req=%v buf-resp=%v err-pages=%d keep-alive=%v)", i, rq.Fault, rq.DelayMs, timeout, p.BufReq, p.BufResp, p.ErrPages, p.KeepAlive)
 			method := "POST"
@@ -152,9 +185,9 @@ func c15Run(t *testing.T, p c15Plan) (res vfResult) {
 				wantStatus = 200
 			case "no-listener", "accept-close":
 				wantStatus, wantAt = 502, start
-			case "read-close", "reset", "garbage", "partial-status", "partial-headers-close", "partial-headers-reset":
+			case "read-close", "reset", "garbage", "partial-status", "partial-headers-close", "partial-headers-reset", "early-then-reset", "early-then-garbage":
 				wantStatus, wantAt = 502, got+vfMs(vfRawThinkMs)
-			case "partial-headers-stall", "silence":
+			case "partial-headers-stall", "silence", "early-then-silence":
 				wantStatus, wantAt = 504, got+timeout
 			case "late-head":
 				eff := vfMs(rq.DelayMs + vfRawThinkMs) // the head leaves the target this long after it had the request
